@@ -14,7 +14,7 @@ use std::panic::{catch_unwind, AssertUnwindSafe};
 
 use hipstr::vecs::thin::{self, Reserved};
 use hipstr::vecs::InlineVec;
-use hipverif_harness::util::{parse_cli, LeanDriver, Rng};
+use hipverif_harness::util::{parse_cli, Rng};
 
 // ---------------------------------------------------------------------------------------------
 // monitor
@@ -391,7 +391,7 @@ fn some<E: Elem>(r: Result<E, ()>) -> Ret {
 }
 
 /// `next` / `next_back` script shared by `Drain` and `IntoIter`
-fn run_script<E: Elem>(it: &mut (impl DoubleEndedIterator<Item = E>), script: &str) {
+fn run_script<E: Elem>(it: &mut impl DoubleEndedIterator<Item = E>, script: &str) {
     for c in script.chars() {
         match c {
             'n' => {
@@ -1090,7 +1090,11 @@ impl Stats {
         if self.samples.len() < 6 {
             self.samples.extend(o.samples.into_iter().take(2));
         }
-        self.disagreements.extend(o.disagreements);
+        for d in o.disagreements {
+            if self.disagreements.len() < 20 && !self.disagreements.contains(&d) {
+                self.disagreements.push(d);
+            }
+        }
     }
 }
 
@@ -1361,6 +1365,36 @@ fn random_cases(w: &mut Worker, cfg: Cfg, rng: &mut Rng, count: usize, maxlen: u
 
 // ---------------------------------------------------------------------------------------------
 
+/// the monitor must see a deliberate double drop and a drop of uninitialised memory
+fn selftest() -> i32 {
+    reset_monitor();
+    let mut v: thin::ThinVec<El8, Pfx> = thin::ThinVec::new();
+    v.push(El8::new());
+    let dup = unsafe { std::ptr::read(v.as_ptr()) };
+    drop(dup);
+    drop(v);
+    let double = mon(|m| std::mem::take(&mut m.violations));
+    let mut w: InlineVec<El8, 3> = InlineVec::new();
+    w.push(El8::new());
+    unsafe {
+        // poison the spare slot so that the outcome does not depend on stack garbage
+        w.as_mut_ptr().add(1).cast::<u64>().write(0x1234);
+        w.set_len(2);
+    }
+    drop(w);
+    let uninit = mon(|m| std::mem::take(&mut m.violations));
+    println!("selftest: double drop -> {double:?}; uninit drop -> {uninit:?}");
+    let ok = double.len() == 1
+        && double[0].contains("already dropped")
+        && uninit.len() == 1
+        && uninit[0].contains("never initialised");
+    if ok {
+        0
+    } else {
+        1
+    }
+}
+
 fn main() {
     let cli = parse_cli();
     std::panic::set_hook(Box::new(|info| {
@@ -1377,6 +1411,9 @@ fn main() {
             }
         }
     }));
+    if cli.extra.iter().any(|a| a == "--selftest") {
+        std::process::exit(selftest());
+    }
     let Some(lean) = cli.lean.clone() else {
         eprintln!("slotdrive: --lean <path to slot_driver> is required");
         std::process::exit(2);
